@@ -3,7 +3,6 @@ package props
 import (
 	"bytes"
 	"context"
-	"encoding/base64"
 	"encoding/json"
 	"errors"
 	"fmt"
@@ -90,6 +89,16 @@ func writerBackend(carrier string, err error) ociregistry.Interface {
 
 func scriptedBackend(err error) ociregistry.Interface {
 	return &ociregistry.Funcs{NewError: func(ctx context.Context, method, repo string) error { return err }}
+}
+
+// resumeFailsBackend starts uploads and fails every attempt to resume one.
+func resumeFailsBackend(err error) ociregistry.Interface {
+	return &ociregistry.Funcs{
+		NewError: func(ctx context.Context, method, repo string) error { return err },
+		PushBlobChunked_: func(ctx context.Context, repo string, chunkSize int) (ociregistry.BlobWriter, error) {
+			return &failingWriter{}, nil
+		},
+	}
 }
 
 func c07(env *core.Env) {
@@ -188,12 +197,12 @@ func c07(env *core.Env) {
 			_, err := r.PushBlob(ctx, repo, ociregistry.Descriptor{Digest: dig, Size: 1, MediaType: "application/octet-stream"}, bytes.NewReader([]byte("x")))
 			return err
 		case "PushBlobChunkedResume":
-			// an upload id that every hop can peel one layer off
-			id := "id"
-			for i := 0; i < hops; i++ {
-				id = "http://sim.example/v2/foo/bar/blobs/uploads/" + base64.RawURLEncoding.EncodeToString([]byte(id))
+			// (an upload id that every hop accepts: one that the hops themselves made)
+			w0, err := r.PushBlobChunked(ctx, repo, 1)
+			if err != nil {
+				return fmt.Errorf("harness: upload could not be started: %v", err)
 			}
-			w, err := r.PushBlobChunkedResume(ctx, repo, id, 0, 0)
+			w, err := r.PushBlobChunkedResume(ctx, repo, w0.ID(), 0, 0)
 			if err != nil {
 				return err
 			}
@@ -205,11 +214,11 @@ func c07(env *core.Env) {
 			_ = perr
 			return err
 		case "PushBlobChunkedResume.ask":
-			id := "id"
-			for i := 0; i < hops; i++ {
-				id = "http://sim.example/v2/foo/bar/blobs/uploads/" + base64.RawURLEncoding.EncodeToString([]byte(id))
+			w0, err := r.PushBlobChunked(ctx, repo, 1)
+			if err != nil {
+				return fmt.Errorf("harness: upload could not be started: %v", err)
 			}
-			_, err := r.PushBlobChunkedResume(ctx, repo, id, -1, 0)
+			_, err = r.PushBlobChunkedResume(ctx, repo, w0.ID(), -1, 0)
 			return err
 		case "Writer.Write", "Writer.Close", "Writer.Commit", "Writer.Write+Close":
 			w, err := r.PushBlobChunked(ctx, repo, 1)
@@ -254,6 +263,9 @@ func c07(env *core.Env) {
 		var r ociregistry.Interface = scriptedBackend(orig)
 		if strings.HasPrefix(carrier, "Writer.") {
 			r = writerBackend(carrier, orig)
+		}
+		if strings.HasPrefix(carrier, "PushBlobChunkedResume") {
+			r = resumeFailsBackend(orig)
 		}
 		o := &stackOpts{OneByte: c.Bool("onebyte", 1, 10), EOFData: c.Bool("eofdata", 1, 4)}
 		for i := 0; i < hops; i++ {
